@@ -43,7 +43,7 @@ def run_scenario(chk, sc, cfgseed, fields, axes):
     before = alpha.tree_digest(src)
     lim = sc["lim"]
     try:
-        with shims.pool_shim(shims.Scheduler(default="random", rng=rng)), shims.poison(SENTINEL), core.quiet():
+        with shims.pool_shim(shims.Scheduler(default="random", rng=rng)), shims.poison([SENTINEL, -SENTINEL, float("nan")][cfgseed % 3]), core.quiet():
             out = Mandoline(src, fields=list(fields), limit_level=lim, serial=bool(sc["serial"]), verbose=0).slice(fformat="return")
     except Exception as e:
         return "mandoline raised %s: %s" % (type(e).__name__, str(e)[:200])
